@@ -632,6 +632,14 @@ def _r5(ctx, m):
 
 T = FILE
 MUTANTS = [
+    {"name": "dict-keyed-jacobian-modifier-term-transposed", "edits": [
+        {"file": T, "old": '        jacrhs = ["0.0"] * n_eqns * n_eqns\n', "new": '        jacterms = {}\n'},
+        {"file": T, "old": "jacrhs[specidx * n_eqns + ri] += term", "new": 'jacterms[(specidx, ri)] = jacterms.get((specidx, ri), "0.0") + term', "count": 2},
+        {"file": T, "old": "jacrhs[sidx * n_eqns + didx] += term", "new": 'jacterms[(didx, sidx)] = jacterms.get((didx, sidx), "0.0") + term'},
+        {"file": T, "old": "jacrhs[n_spec * n_eqns + ri] += term", "new": 'jacterms[(n_spec, ri)] = jacterms.get((n_spec, ri), "0.0") + term', "count": 2},
+        {"file": T, "old": '            for si in range(n_spec):\n                jacrhs[n_spec * n_eqns + si] = (\n                    "0.0"\n                    if jacrhs[n_spec * n_eqns + si] == "0.0"\n                    else f"(gamma - 1.0) * ( {jacrhs[n_spec * n_eqns + si]} ) / kerg / npar"\n                )\n',
+         "new": '            for si in range(n_spec):\n                if (n_spec, si) in jacterms:\n                    jacterms[(n_spec, si)] = f"(gamma - 1.0) * ( {jacterms[(n_spec, si)]} ) / kerg / npar"\n'},
+        {"file": T, "old": '        fex = [f"{l} = {r};" for l, r in zip(lhs, rhs)]\n', "new": '        jacrhs = [jacterms.get((row, col), "0.0") for row in range(n_eqns) for col in range(n_eqns)]\n        fex = [f"{l} = {r};" for l, r in zip(lhs, rhs)]\n'}], "rules": ["R1"]},
     {"name": "thermal-wrap-slice-walk-stores-one-column-off", "file": T,
      "old": '            for si in range(n_spec):\n                jacrhs[n_spec * n_eqns + si] = (\n                    "0.0"\n                    if jacrhs[n_spec * n_eqns + si] == "0.0"\n                    else f"(gamma - 1.0) * ( {jacrhs[n_spec * n_eqns + si]} ) / kerg / npar"\n                )\n',
      "new": '            tstart = n_spec * n_eqns\n            for si, entry in enumerate(jacrhs[tstart : tstart + n_spec]):\n                if entry != "0.0":\n                    jacrhs[tstart + si + 1] = f"(gamma - 1.0) * ( {entry} ) / kerg / npar"\n', "rules": ["R3"]},
@@ -672,6 +680,14 @@ MUTANTS = [
     {"name": "skip-catalyst-jac", "file": T, "old": "            for specidx in pspecidx:\n                for ri in rspecidx:\n                    rsymcopy = rsym.copy()", "new": "            for specidx in pspecidx:\n                if specidx in rspecidx:\n                    continue\n                for ri in rspecidx:\n                    rsymcopy = rsym.copy()", "rules": ["R1"]},
 ]
 BENIGN = [
+    {"name": "jacobian-terms-kept-in-a-dict-keyed-by-row-and-column", "edits": [
+        {"file": T, "old": '        jacrhs = ["0.0"] * n_eqns * n_eqns\n', "new": '        jacterms = {}\n'},
+        {"file": T, "old": "jacrhs[specidx * n_eqns + ri] += term", "new": 'jacterms[(specidx, ri)] = jacterms.get((specidx, ri), "0.0") + term', "count": 2},
+        {"file": T, "old": "jacrhs[sidx * n_eqns + didx] += term", "new": 'jacterms[(sidx, didx)] = jacterms.get((sidx, didx), "0.0") + term'},
+        {"file": T, "old": "jacrhs[n_spec * n_eqns + ri] += term", "new": 'jacterms[(n_spec, ri)] = jacterms.get((n_spec, ri), "0.0") + term', "count": 2},
+        {"file": T, "old": '            for si in range(n_spec):\n                jacrhs[n_spec * n_eqns + si] = (\n                    "0.0"\n                    if jacrhs[n_spec * n_eqns + si] == "0.0"\n                    else f"(gamma - 1.0) * ( {jacrhs[n_spec * n_eqns + si]} ) / kerg / npar"\n                )\n',
+         "new": '            for si in range(n_spec):\n                if (n_spec, si) in jacterms:\n                    jacterms[(n_spec, si)] = f"(gamma - 1.0) * ( {jacterms[(n_spec, si)]} ) / kerg / npar"\n'},
+        {"file": T, "old": '        fex = [f"{l} = {r};" for l, r in zip(lhs, rhs)]\n', "new": '        jacrhs = [jacterms.get((row, col), "0.0") for row in range(n_eqns) for col in range(n_eqns)]\n        fex = [f"{l} = {r};" for l, r in zip(lhs, rhs)]\n'}]},
     {"name": "thermal-wrap-walks-the-row-slice-with-enumerate", "file": T,
      "old": '            for si in range(n_spec):\n                jacrhs[n_spec * n_eqns + si] = (\n                    "0.0"\n                    if jacrhs[n_spec * n_eqns + si] == "0.0"\n                    else f"(gamma - 1.0) * ( {jacrhs[n_spec * n_eqns + si]} ) / kerg / npar"\n                )\n',
      "new": '            tstart = n_spec * n_eqns\n            for si, entry in enumerate(jacrhs[tstart : tstart + n_spec]):\n                if entry != "0.0":\n                    jacrhs[tstart + si] = f"(gamma - 1.0) * ( {entry} ) / kerg / npar"\n'},
